@@ -152,6 +152,87 @@ module Q = struct
       (qrun_trace s0 (L.map op_of ops))
 end
 
+(* ---------------------------------------------------------------- Factory (L2) *)
+module F = struct
+  open Kernel
+  open World
+  open Factory
+  let zlist w = if w = "-" then [] else L.map (fun x -> z_of_int (int_of_string x)) (String.split_on_char ',' w)
+  let nlist w = if w = "-" then [] else L.map (fun x -> nat_of_int (int_of_string x)) (String.split_on_char ',' w)
+  let policy_of w =
+    if w = "FA" then PFirst else if w = "RR" then PRoundRobin else if w = "BAD" then PBad
+    else if String.length w > 2 && String.sub w 0 2 = "C:" then PConst (z_of_int (int_of_string (String.sub w 2 (String.length w - 2))))
+    else if String.length w > 2 && String.sub w 0 2 = "S:" then PStream (zlist (String.sub w 2 (String.length w - 2)))
+    else failwith ("policy " ^ w)
+  let rec zeros n = if n <= 0 then [] else Z0 :: zeros (n - 1)
+  let node_of w =
+    (* NODE kind setup blocking wcap insel outsel delays ins outs recipe *)
+    let g n = L.nth w n in
+    let kind = match g 1 with "source" -> NSource | "machine" -> NMachine | "sink" -> NSink
+                            | "splitter" -> NSplitter | "combiner" -> NCombiner | k -> failwith k in
+    let wcap = int_of_string (g 4) in
+    let nts = match kind with NSource -> 3 | NMachine -> 6 | NSink -> 1 | _ -> 6 in
+    { node0 with nk = kind; nsetup = z_of_int (int_of_string (g 2)); nblocking = (g 3 = "1");
+      nwcap = nat_of_int wcap; ninsel = policy_of (g 5); noutsel = policy_of (g 6); ndelays = zlist (g 7);
+      nins = nlist (g 8); nouts = nlist (g 9); nrecipe = nlist (g 10);
+      ntstate = zeros nts; nocchist = (match kind with NMachine -> zeros (wcap + 1) | _ -> []); nres = res_init (nat_of_int wcap);
+      nlast = (match kind with NSink -> Some Z0 | _ -> None);
+      nstate = O }
+  let edge_of w =
+    let g n = L.nth w n in
+    match g 1 with
+    | "buffer" ->
+        (* EDGE buffer cap mode delays src dst *)
+        { edge0 with ek = EBuffer; est = StoreB.init StoreB.KBuffer (B.mode_of (g 3)) (nat_of_int (int_of_string (g 2)));
+          edelays = zlist (g 4); esrc = nat_of_int (int_of_string (g 5)); edst = nat_of_int (int_of_string (g 6)) }
+    | "fleet" ->
+        (* EDGE fleet cap fdelay transit src dst *)
+        { edge0 with ek = EFleet; est = StoreB.init StoreB.KFleet StoreB.FIFO (nat_of_int (int_of_string (g 2)));
+          efdelay = z_of_int (int_of_string (g 3)); eftransit = z_of_int (int_of_string (g 4));
+          esrc = nat_of_int (int_of_string (g 5)); edst = nat_of_int (int_of_string (g 6)) }
+    | k -> failwith ("edge " ^ k)
+  let zs l = String.concat "," (L.map (fun z -> string_of_int (int_of_z z)) l)
+  let ns l = String.concat "," (L.map (fun n -> string_of_int (int_of_nat n)) l)
+  let crash_str = function
+    | CAssert n -> Printf.sprintf "AssertionError@%d" (int_of_nat n)
+    | CIndex n -> Printf.sprintf "IndexError@%d" (int_of_nat n)
+    | CValue n -> Printf.sprintf "ValueError@%d" (int_of_nat n)
+    | CRuntime n -> Printf.sprintf "RuntimeError@%d" (int_of_nat n)
+    | CType n -> Printf.sprintf "TypeError@%d" (int_of_nat n)
+    | CFuel -> "FUEL"
+    | CDoubleSucceed n -> Printf.sprintf "RuntimeError(succeed)@%d" (int_of_nat n)
+  let i = int_of_nat and z = int_of_z
+  let log_line = function
+    | LGen (t, n, it) -> Printf.printf "G %d %d %d\n" (z t) (i n) (i it)
+    | LPut (t, e, it) -> Printf.printf "P %d %d %d\n" (z t) (i e) (i it)
+    | LGet (t, e, it, n) -> Printf.printf "T %d %d %d %d\n" (z t) (i e) (i it) (i n)
+    | LDiscard (t, n, it) -> Printf.printf "D %d %d %d\n" (z t) (i n) (i it)
+    | LRecv (t, n, it) -> Printf.printf "R %d %d %d\n" (z t) (i n) (i it)
+    | LSel (n, o, idx) -> Printf.printf "S %d %d %d\n" (i n) (if o then 1 else 0) (i idx)
+    | LDraw (n, wh, v) -> Printf.printf "W %d %d %d\n" (i n) (i wh) (z v)
+  let case hdr lines =
+    let t_end = z_of_int (int_of_string (L.nth hdr 2)) in
+    let steps = nat_of_int (int_of_string (L.nth hdr 3)) in
+    let nodes = L.map node_of (L.filter (fun w -> L.hd w = "NODE") lines) in
+    let edges = L.map edge_of (L.filter (fun w -> L.hd w = "EDGE") lines) in
+    let order = match L.filter (fun w -> L.hd w = "ORDER") lines with
+      | o :: _ -> L.map (fun x -> (x.[0] = 'N', nat_of_int (int_of_string (String.sub x 1 (String.length x - 1))))) (L.tl o)
+      | [] -> [] in
+    let w0 = mk_world nodes edges order in
+    let (w, fin) = run_until steps t_end w0 in
+    L.iter log_line w.wlog;
+    (match w.wcrash with Some c -> Printf.printf "CRASH %s\n" (crash_str c) | None -> ());
+    if not fin then print_string "EXHAUSTED\n";
+    L.iteri (fun k nd ->
+      match finalize_node t_end nd with
+      | None -> Printf.printf "NODE %d FINALIZE-ERROR gen=%d disc=%d procd=%d recv=%d\n" k (i nd.ngen) (i nd.ndisc) (i nd.nprocd) (i nd.nrecv)
+      | Some f ->
+        Printf.printf "NODE %d gen=%d disc=%d procd=%d recv=%d cycle=%d tstate=%s occ=%s sumproc=%d sumblk=%d\n" k
+          (i f.ngen) (i f.ndisc) (i f.nprocd) (i f.nrecv) (z f.ncycle) (zs f.ntstate) (zs f.nocchist) (z f.nsumproc) (z f.nsumblk)) w.wnodes;
+    L.iteri (fun k ed -> let f = finalize_edge t_end ed in
+      Printf.printf "EDGE %d wsum=%d transit=%s ready=%s\n" k (z f.ewsum) (ns f.est.StoreB.transit) (ns f.est.StoreB.ready)) w.wedges
+end
+
 let () =
   let cur = ref None and ops = ref [] in
   let flush () =
@@ -164,6 +245,7 @@ let () =
           | "storeb" -> B.case hdr (L.rev !ops)
           | "tbuffer" -> T.case hdr (L.rev !ops)
           | "storeq" -> Q.case hdr (L.rev !ops)
+          | "factory" -> F.case hdr (L.rev !ops)
           | m -> failwith ("model " ^ m));
          print_string "END\n");
     cur := None; ops := [] in
